@@ -51,6 +51,11 @@ type Term struct {
 var termCounter uint64
 
 func newTerm(op string, s Sort, args ...*Term) *Term {
+	if op == "const" {
+		// constants are printed as literals and never need an id; skipping the
+		// shared counter avoids cache-line contention between workers
+		return &Term{Op: op, S: s}
+	}
 	return &Term{Op: op, Args: args, S: s, id: atomic.AddUint64(&termCounter, 1)}
 }
 
